@@ -336,6 +336,98 @@ def rerun_check(case):
     return Res(v, o=(layout, compress), tr=2)
 
 
+HIST_OPS = ("P", "O", "N", "I")       # process(), process(overwrite=True), a new converter object, init_params() again
+
+
+def hist_cases(tier, seed):
+    depth = 4 if tier == "quick" else 5
+    return [(layout, first, depth) for layout in ("NP2.1", "NP2.4") for first in HIST_OPS]
+
+
+def hist_check(case):
+    """every sequence of calls after a first conversion: after every call the LF stream on disk is the one the first conversion wrote (ceil(n/12) samples)"""
+    import itertools
+    import neuropixel
+    layout, first_op, depth = case
+    root = os.path.join(synth.proc_scratch(), "c12h")
+    ns = 1811
+    data = np2.content(ns, 5, "broadband", seed=SEED[0] + 9)
+    sites = np2.sites_for([0, 1, 1, 1]) if layout == "NP2.4" else np2.sites_for([0, 0, 0, 0])
+    nlf = -(-ns // RATIO)
+    seen = {}
+    ntr = 0
+    nwords = 0
+    outcomes = set()
+
+    def lf_files():
+        if layout == "NP2.4":
+            return {sh: os.path.join(np2.shank_folder(root, sh), np2.STEM + ".lf.bin") for sh in (0, 1)}
+        return {0: os.path.join(root, np2.LABEL, np2.STEM + ".lf.bin")}
+
+    def read_all():
+        res = {}
+        for sh, f in lf_files().items():
+            sr = spikeglx.Reader(f, sort=False)
+            shp = tuple(sr.shape)
+            sr.close()
+            res[sh] = (shp, np2.read_raw(f, shp[1]), os.path.getsize(f))
+        return res
+    for rest in itertools.product(HIST_OPS, repeat=depth - 1):
+        word = ("P", first_op) + rest
+        nwords += 1
+        np2.clean(root)
+        ap = np2.make_session(root, layout, sites, data)
+        conv = neuropixel.NP2Converter(ap, post_check=True, compress=False)
+        conv.init_params(nwindow=600)
+        ref = None
+        res = []
+        for i, op in enumerate(word):
+            ctx = "%s calls %s (P=process, O=process(overwrite=True), N=new converter, I=init_params again)" % (layout, "".join(word[:i + 1]))
+            try:
+                if op == "P":
+                    res.append(conv.process())
+                elif op == "O":
+                    st = conv.process(overwrite=True)
+                    res.append(st)
+                    if st != 1:
+                        seen.setdefault("history:forced-status", "%s: the forced conversion returned %r" % (ctx, st))
+                elif op == "N":
+                    try:
+                        conv.sr.close()
+                    except Exception:
+                        pass
+                    conv = neuropixel.NP2Converter(ap, post_check=True, compress=False)
+                    conv.init_params(nwindow=600)
+                    res.append("n")
+                else:
+                    conv.init_params(nwindow=600)
+                    res.append("i")
+                ntr += 1
+                now = read_all()
+            except Exception as e:
+                seen.setdefault("history:exc:%s" % type(e).__name__, "%s: %s: %s" % (ctx, type(e).__name__, e))
+                break
+            if ref is None:
+                ref = now
+            bad = False
+            for sh in ref:
+                (shape1, a, size1), (shape2, b, size2) = ref[sh], now[sh]
+                if shape2 != (nlf, a.shape[1]) or size2 != nlf * a.shape[1] * 2 or not np.array_equal(a, b):
+                    seen.setdefault("history:lf", "%s: the LF file of shank %d has shape %r / %d bytes, expected %r (the first conversion wrote %r)" % (ctx, sh, shape2, size2, (nlf, a.shape[1]), shape1))
+                    bad = True
+            if bad:
+                break
+        try:
+            conv.sr.close()
+        except Exception:
+            pass
+        outcomes.add(tuple(res))
+        if len(seen) > 3:
+            break
+    shutil.rmtree(root, ignore_errors=True)
+    return Res(list(seen.items()), o=(layout, first_op, len(outcomes)), tr=ntr, x=dict(histories=nwords))
+
+
 def offset_cases(tier, seed):
     return [(off, n) for off in (0, 12, 600, 1201) for n in (1200, 1811)]
 
@@ -395,6 +487,8 @@ CHECK = {
         Clause("window-sweep", "every processing-window size (multiple of 12) from 588 to 1320 (thorough: to 20000)", cases=wsweep_cases, check=wsweep_check, setup=_setup),
         Clause("large-windows", "one window holding more values than every size constant mined from the converter's source", cases=scale_cases, check=scale_check, setup=_setup),
         Clause("channel-counts", "recordings with 1..13 saved channels: every channel is low-passed", cases=count_cases, check=count_check, setup=_setup),
+        Clause("call-histories", "every sequence (4 calls quick / 5 thorough after the first conversion) of process(), process(overwrite=True), new converter object and init_params(): "
+               "after every call the LF stream on disk is the one first written", cases=hist_cases, check=hist_check, setup=_setup),
         Clause("rerun", "forced re-conversion (same / fresh converter, compress on/off) reproduces the LF stream", cases=rerun_cases, check=rerun_check, setup=_setup),
         Clause("sub-range", "LFP of a sub-range through the offset entry point = LFP of the cut recording", cases=offset_cases, check=offset_check, setup=_setup),
     ],
